@@ -131,6 +131,9 @@ def make_cfg(spec: dict):
     )
     if "seed" in spec:
         kw["seed"] = spec["seed"]
+    for k in ("seq_len_min", "seq_len_max"):
+        if k in spec:
+            kw[k] = spec[k]
     return MazeDatasetConfig(**kw)
 
 
@@ -178,8 +181,8 @@ def spec_key(spec: dict) -> dict:
         "endpoint_kwargs": _norm(spec.get("endpoint_kwargs", {})),
         "seed": spec.get("seed", 42),
         "applied_filters": [{"name": f["name"], "args": _norm(f.get("args", [])), "kwargs": _norm(f.get("kwargs", {}))} for f in spec.get("applied_filters", [])],
-        "seq_len_min": 1,
-        "seq_len_max": 512,
+        "seq_len_min": spec.get("seq_len_min", 1),
+        "seq_len_max": spec.get("seq_len_max", 512),
     }
 
 
